@@ -594,9 +594,9 @@ def gen_portal(rng):
     return s
 
 
-def gen_truss(rng):
+def gen_truss(rng, hair=None):
     """pin-jointed triangle(s) on the 3-4-5 grid with nodal loads (axial members, joints that
-    carry no rotational stiffness)"""
+    carry no rotational stiffness); hair = True: every nodal load is written a hair inside its bar"""
     s = Structure()
     std_mat_sec(s, rng)
     a = Fr(rng.choice(["10", "25"]))
@@ -609,7 +609,7 @@ def gen_truss(rng):
     for k, (px, py) in pts.items():
         s.nodes[k] = (a * px, a * py, sups.get(k, (False, False, False)))
     for i, (p, q) in enumerate(edges):
-        if rng.random() < 0.3:
+        if rng.random() < 0.3 and not hair:     # (hair: the member that brings the load to a free joint ends there, t = 1)
             p, q = q, p
         s.bars.append({"id": "b%d" % (i + 1), "n1": p, "l1": LINKS["pin"], "n2": q, "l2": LINKS["pin"],
                        "mat": "steel", "sec": "ipe"})
@@ -619,7 +619,7 @@ def gen_truss(rng):
         for b in s.bars:
             if k in (b["n1"], b["n2"]):
                 t = Fr(0) if b["n1"] == k else Fr(1)
-                if rng.random() < 0.4:
+                if (rng.random() < 0.4) if hair is None else hair:
                     # written a hair inside the bar: the code identifies positions within 1e-10 of an end with that end
                     t = Fr(rng.choice(["0.00000000005", "3e-12"])) if t == 0 else Fr(rng.choice(["0.99999999995", "0.9999999999999999"]))
                 s.loads.append({"kind": "c", "term": rng.choice(["fx", "fy"]), "local": False, "bar": b["id"], "t": t,
